@@ -38,20 +38,20 @@ def cases(seed, tier):
     out = []
     mspecs = uni.model_specs(rng, tier)
     for ms in mspecs:
-        for r in range(3 if tier == 'quick' else 40):
+        for r in range(3 if tier == 'quick' else 200):
             out.append({'mode': 'history', 'kind': 'univariate', 'model': ms, 'k': int(rng.integers(0, 4)),
                         'seed': int(rng.integers(1 << 31))})
     for fam in biv.FAMILIES:
-        for r in range(3 if tier == 'quick' else 40):
+        for r in range(3 if tier == 'quick' else 200):
             out.append({'mode': 'history', 'kind': 'bivariate', 'family': fam, 'k': int(rng.integers(1, 4)),
                         'seed': int(rng.integers(1 << 31))})
-    for r in range(10 if tier == 'quick' else 200):
+    for r in range(10 if tier == 'quick' else 1000):
         out.append({'mode': 'history', 'kind': 'gaussian', 'config': mv.CONFIGS[r % 5], 'k': int(rng.integers(1, 3)),
                     'seed': int(rng.integers(1 << 31))})
-    for r in range(9 if tier == 'quick' else 150):
+    for r in range(9 if tier == 'quick' else 700):
         out.append({'mode': 'history', 'kind': 'vine', 'vine_type': ['center', 'direct', 'regular'][r % 3],
                     'k': 1, 'd': int(rng.integers(2, 5)), 'seed': int(rng.integers(1 << 31))})
-    for r in range(24 if tier == 'quick' else 400):
+    for r in range(24 if tier == 'quick' else 2500):
         out.append({'mode': 'poison', 'vine_type': ['center', 'direct', 'regular'][r % 3], 'd': int(rng.integers(2, 7)),
                     'truncated': int(rng.choice([1, 2, 3, 10])), 'seed': int(rng.integers(1 << 31))})
     out.append({'mode': 'unfitted'})
